@@ -15,7 +15,7 @@ theorem C09_parse_no_panic (ts : List Token) (s : String) : parseTokens ts = .pa
   intro h
   unfold parseTokens at h
   cases hp : parseStmt (ts.length + 2) ts with
-  | ok a rest => rw [hp] at h; cases h
+  | ok a rest => rw [hp] at h; simp only [] at h; split at h <;> cases h
   | err e => rw [hp] at h; cases h
   | panic s' => exact (NoPanic.parseStmt _).h ts s' hp
   | fuel => rw [hp] at h; cases h
